@@ -41,13 +41,16 @@ ExpFor(n, e) == IF Pow2(e) >= n THEN e ELSE ExpFor(n, e + 1)
 ExpLo(cap, milliLog) == ExpFor(IF EntriesLo(cap, milliLog) < 512 THEN 512 ELSE EntriesLo(cap, milliLog), 0)
 ExpHi(cap, milliLog) == ExpFor(IF EntriesHi(cap, milliLog) < 512 THEN 512 ELSE EntriesHi(cap, milliLog), 0)
 
-\* ceil(3.32193 * milliLog/1000): exact for the rates used (not within 1e-3 of an integer)
-Locs(milliLog) == (milliLog * 332193 + 99999999) \div 100000000
+\* locs = ceil(3.32193 * milliLog/1000), bracketed like the bit count: at rate 0.5 the exact value is
+\* 1.0 and the floating-point result is 1 or 2 depending on the capacity
+LocsLo(milliLog) == (milliLog * 331861 + 99999999) \div 100000000      \* 3.32193 * (1 - 1e-3)
+LocsHi(milliLog) == (milliLog * 332525 + 99999999) \div 100000000      \* 3.32193 * (1 + 1e-3)
+Locs(milliLog) == LocsLo(milliLog)
 
 SizingOK(cap, milliLog, e, locs) ==
     /\ e >= ExpLo(cap, milliLog)
     /\ e <= ExpHi(cap, milliLog)
-    /\ locs = Locs(milliLog)
+    /\ locs >= LocsLo(milliLog) /\ locs <= LocsHi(milliLog)
     /\ locs >= 1
 
 =============================================================================
